@@ -14,22 +14,30 @@ import Pyx12Verif.Drv.C10
 import Pyx12Verif.Drv.C11
 import Pyx12Verif.Drv.C09
 import Pyx12Verif.Drv.C07
+import Pyx12Verif.Drv.Doc
 
 open Pyx12Verif
 
 def handlers : List (List (List Char) → Option String) :=
   [Drv.C13.handle, Drv.C14.handle, Drv.C15.handle, Drv.C17.handle, Drv.C19.handle, Drv.C04.handle, Drv.C01.handle, Drv.C08.handle, Drv.C05.handle, Drv.C20.handle, Drv.C10.handle, Drv.C11.handle, Drv.C09.handle, Drv.C07.handle]
 
-partial def loop (hin hout : IO.FS.Stream) (st : Drv.Walk.DState) : IO Unit := do
+structure St where
+  walk : Drv.Walk.DState := {}
+  doc : Drv.Doc.DState := {}
+
+partial def loop (hin hout : IO.FS.Stream) (st : St) : IO Unit := do
   let line ← hin.getLine
   if line.isEmpty then return ()
   let fs := Proto.fields line
   match handlers.findSome? (fun h => h fs) with
   | some r => hout.putStrLn r; loop hin hout st
   | none =>
-    match Drv.Walk.handle st fs with
-    | some (st', r) => hout.putStrLn r; loop hin hout st'
-    | none => hout.putStrLn "bad-op"; loop hin hout st
+    match Drv.Walk.handle st.walk fs with
+    | some (w, r) => hout.putStrLn r; loop hin hout { st with walk := w }
+    | none =>
+      match Drv.Doc.handle st.doc fs with
+      | some (d, r) => hout.putStrLn r; loop hin hout { st with doc := d }
+      | none => hout.putStrLn "bad-op"; loop hin hout st
 
 def main : IO Unit := do
   let hin ← IO.getStdin
